@@ -1257,6 +1257,70 @@ def _r21g(chk, repo) -> None:
     chk.floor("R21g.dialect_collection_reads_in_rule_code", 5)
 
 
+def _r21k(chk, repo) -> None:
+    from ..idioms import conditions_at
+
+    f = repo.fn("src/sqlfluff/api/simple.py", "get_simple_config")
+    cfg = cfg_of(f)
+    params = {a.arg for a in f.args.args + f.args.kwonlyargs}
+    n = 0
+    for st in walk_local(f):
+        if not (isinstance(st, ast.Assign) and len(st.targets) == 1 and isinstance(st.targets[0], ast.Subscript) and isinstance(st.targets[0].slice, ast.Constant)):
+            continue
+        used = {x.id for x in ast.walk(st.value) if isinstance(x, ast.Name)} & params
+        if not used:
+            continue
+        for pn in sorted(used):
+            n += 1
+            ok = bad = False
+            for e, pol in conditions_at(cfg, st):
+                if isinstance(e, ast.Compare) and len(e.ops) == 1 and isinstance(e.left, ast.Name) and e.left.id == pn and isinstance(e.comparators[0], ast.Constant) and e.comparators[0].value is None:
+                    if (isinstance(e.ops[0], ast.IsNot) and pol) or (isinstance(e.ops[0], ast.Is) and not pol):
+                        ok = True
+                if isinstance(e, ast.Name) and e.id == pn:
+                    bad = True
+                if isinstance(e, ast.Call) and call_name(e) in ("len", "bool") and e.args and isinstance(e.args[0], ast.Name) and e.args[0].id == pn:
+                    bad = True
+            chk.require(
+                ok and not bad, "R21k", st,
+                f"get_simple_config turns `{pn}` into the override {short(st.targets[0], 30)} only when it is truthy (or not under `{pn} is not None`): an explicitly empty selection "
+                "is dropped and the config file's value stays in force",
+                detail=f"get_simple_config: {pn} handed on whenever it is given",
+            )
+    chk.count("R21k.argument_overrides", n)
+    chk.floor("R21k.argument_overrides", 3)
+
+
+def _r21j(chk, repo) -> None:
+    f = repo.fn("src/sqlfluff/core/rules/base.py", "RuleSet.get_rulepack")
+    cfg = cfg_of(f)
+    n = 0
+    for b in [b for b in ast.walk(f) if isinstance(b, ast.BoolOp) and isinstance(b.op, ast.Or) and len(b.values) == 2]:
+        r = b.values[1]
+        if not (isinstance(r, ast.Call) and call_name(r) in ("list", "sorted", "set") and r.args and any(isinstance(x, ast.Name) and "code" in x.id for x in ast.walk(r))):
+            continue
+        n += 1
+        l = b.values[0]
+        st = cfg.stmt_of(b)
+        exprs = [l]
+        if isinstance(l, ast.Name):
+            exprs = [o.expr for o in origins(cfg, l, st) if o.kind == "expr"] or [l]
+
+        def configured(e) -> bool:
+            if isinstance(e, ast.BoolOp) and isinstance(e.op, ast.Or):
+                return configured(e.values[0])
+            return isinstance(e, ast.Call) and last_attr(e) == "get" and e.args and isinstance(e.args[0], ast.Constant) and "allowlist" in str(e.args[0].value)
+
+        chk.require(
+            all(configured(e) for e in exprs), "R21j", b,
+            f"get_rulepack falls back to every rule when `{short(l, 40)}` is empty, and that is not the configured allow-list itself (it was filtered before): `rules = LT1` (an unknown "
+            "reference) then selects all rules instead of none",
+            detail="get_rulepack: default-to-all applies to the configured allow-list only",
+        )
+    chk.count("R21j.default_to_all_fallbacks", n)
+    chk.floor("R21j.default_to_all_fallbacks", 1)
+
+
 def _r21i(chk, repo) -> None:
     from ..flowutil import must_pass
 
@@ -1320,6 +1384,10 @@ def run(chk) -> None:
     chk.rule("R21d", "get_rulepack instantiates the registered codes that are in the expansion of the allow-list and not in the expansion of the deny-list, one expander, one reference map, which is also the noqa map")
     chk.rule("R21e", "rule objects keep no state between evaluations except the reviewed (class, attribute) rows")
     chk.rule("R21f", "no class attribute of a rule class and no module-/class-level object in rules/, utils/, core/rules has a mutation site")
+    chk.rule("R21k", "the simple API hands on every selection it is given, also an empty one: in get_simple_config an argument becomes an override under `<argument> is not None`, never under its truthiness (rules=[] / exclude_rules=[] override the config file)")
+    _r21k(chk, chk.repo)
+    chk.rule("R21j", "'all rules' is the default only for an allow-list that was not configured: in get_rulepack the `<list> or <all codes>` fallback is applied to the value read from the config itself, never to a list that was filtered first (a selection of unknown references selects nothing, not everything)")
+    _r21j(chk, chk.repo)
     chk.rule("R21i", "the derived selection lists (rule_allowlist, rule_denylist, ignore, warnings) are recomputed from their source key every time: in FluffConfig._handle_comma_separated_values every path through the loop body stores the derived key")
     _r21i(chk, chk.repo)
     chk.rule("R21h", "the selector expander drops no selector: every path through the body of its loop over the given selectors looks the selector up in the reference map (direct entry) or matches it as a glob against the map's keys")
@@ -1344,6 +1412,18 @@ ST05 = "src/sqlfluff/rules/structure/ST05.py"
 ST06 = "src/sqlfluff/rules/structure/ST06.py"
 
 VARIANTS: List[Variant] = [
+    Variant(
+        "simple-api-drops-an-empty-exclusion-list", "src/sqlfluff/api/simple.py",
+        "    if exclude_rules is not None:\n",
+        "    if exclude_rules:\n",
+        "R21k", "get_simple_config", "seeded C21-8",
+    ),
+    Variant(
+        "unknown-selection-falls-back-to-all-rules", "src/sqlfluff/core/rules/base.py",
+        '        allowlist = config.get("rule_allowlist") or list(valid_codes)\n',
+        '        allowlist = [r for r in (config.get("rule_allowlist") or []) if r in reference_map or "*" in r] or list(valid_codes)\n',
+        "R21j", "get_rulepack", "seeded C21-7 (same effect)",
+    ),
     Variant(
         "derived-lists-kept-when-the-source-is-cleared", "src/sqlfluff/core/config/fluffconfig.py",
         '            else:\n                self._configs["core"][out_key] = []\n',
